@@ -357,6 +357,10 @@ def eval_env (repo, module, e, env, cls=None):
     if v is globals().get('OPAQUE'): raise _Unknown()
     return v
   if isinstance(e, ast.Constant): return e.value
+  if isinstance(e, ast.Call) and isinstance(e.func, ast.Name) and e.func.id == 'bool' and len(e.args) == 1 and not e.keywords:
+    return bool(eval_env(repo, module, e.args[0], env, cls))
+  if isinstance(e, ast.IfExp):
+    return eval_env(repo, module, e.body if eval_env(repo, module, e.test, env, cls) else e.orelse, env, cls)
   if isinstance(e, (ast.Tuple, ast.List, ast.Set)):
     vals = [eval_env(repo, module, x, env, cls) for x in e.elts]
     return tuple(vals) if isinstance(e, ast.Tuple) else (list(vals) if isinstance(e, ast.List) else set(vals))
